@@ -38,7 +38,8 @@ IN_FAULTS = [
     "left-img-unreadable", "right-img-unreadable", "left-img-not-a-string", "nodata-float", "nodata-string", "mask-other-size",
     "mask-unreadable", "classif-other-size", "segm-other-size", "right-mask-other-size", "disp-length-1", "disp-length-3",
     "disp-reversed", "disp-floats", "disp-missing", "disp-strings", "grid-one-band", "grid-three-bands", "grid-other-size",
-    "grid-min-gt-max", "right-grid-without-left-grid", "right-list", "images-different-size", "right-grid-other-size",
+    "grid-min-gt-max", "grid-min-gt-max-at-one-pixel", "grid-min-gt-max-where-the-file-has-nodata", "grid-min-gt-max-nodata-tag-0",
+    "right-grid-min-gt-max-where-the-file-has-nodata", "right-grid-without-left-grid", "right-list", "images-different-size", "right-grid-other-size",
 ]
 
 
@@ -66,7 +67,7 @@ def cases(spec, ctx):
                 for f in DS_FAULTS:
                     yield {"work": "ds", "base": b, "faults": [[side, f]]}
     elif w == "in-single":
-        for b in range(4):
+        for b in range(5):
             yield {"work": "in", "base": b, "faults": []}
             for f in IN_FAULTS:
                 yield {"work": "in", "base": b, "faults": [f]}
@@ -296,6 +297,21 @@ def files(ctx, rng):
     _files["grid3"] = rasters.write_tif(os.path.join(d, "grid3.tif"), np.array([gmin, gmax, gmax]), "float32")
     _files["grid_big"] = rasters.write_tif(os.path.join(d, "grid_big.tif"), np.zeros((2, H, W + 1)), "float32")
     _files["grid_bad"] = rasters.write_tif(os.path.join(d, "grid_bad.tif"), np.array([gmax + 1, gmin]), "float32")
+    one = np.array([gmin, gmax]).copy()
+    one[:, H // 2, W // 3] = [2.0, -1.0]
+    _files["grid_bad_1px"] = rasters.write_tif(os.path.join(d, "grid_bad_1px.tif"), one, "float32")
+    # grid files that declare a nodata value: the inversion sits on samples equal to that value
+    holes = np.array([gmin, gmax]).copy()
+    holes[1, 1, 2] = holes[1, H - 2, W - 3] = -9999.0
+    _files["grid_bad_nd"] = rasters.write_tif(os.path.join(d, "grid_bad_nd.tif"), holes, "float32", nodata=-9999.0)
+    _files["rgrid_bad_nd"] = rasters.write_tif(os.path.join(d, "rgrid_bad_nd.tif"), np.array([-gmax, np.where(holes[1] == -9999.0, -9999.0, -gmin)]),
+                                               "float32", nodata=-9999.0)
+    zero = np.array([np.minimum(gmin, -1.0), np.maximum(gmax, 1.0)]).copy()
+    zero[:, 3, 3] = [0.0, -3.0]
+    _files["grid_bad_nd0"] = rasters.write_tif(os.path.join(d, "grid_bad_nd0.tif"), zero, "float32", nodata=0.0)
+    # well-formed grids that declare a nodata value
+    _files["grid_nd"] = rasters.write_tif(os.path.join(d, "grid_nd.tif"), np.array([gmin, gmax]), "float32", nodata=-9999.0)
+    _files["rgrid_nd"] = rasters.write_tif(os.path.join(d, "rgrid_nd.tif"), np.array([-gmax, -gmin]), "float32", nodata=0.0)
     _files["right_big"] = rasters.write_tif(os.path.join(d, "right_big.tif"), np.zeros((H, W + 1)), "float32")
     _files["nofile"] = os.path.join(d, "does_not_exist.tif")
     with open(os.path.join(d, "garbage.tif"), "w") as f:
@@ -312,6 +328,8 @@ def base_input(F, base):
                 "right": {"img": F["right3"], "nodata": -5, "mask": F["mask"]}}
     if base == 2:
         return {"left": {"img": F["left"], "disp": F["grid"]}, "right": {"img": F["right"], "disp": F["rgrid"]}}
+    if base == 4:
+        return {"left": {"img": F["left"], "disp": F["grid_nd"]}, "right": {"img": F["right"], "disp": F["rgrid_nd"]}}
     return {"left": {"img": F["left"], "disp": F["grid"], "mask": None}, "right": {"img": F["right"], "disp": None}}
 
 
@@ -363,6 +381,16 @@ def apply_in_fault(cfg, f, F):
         L["disp"] = F["grid_big"]
     elif f == "grid-min-gt-max":
         L["disp"] = F["grid_bad"]
+    elif f == "grid-min-gt-max-at-one-pixel":
+        L["disp"] = F["grid_bad_1px"]
+    elif f == "grid-min-gt-max-where-the-file-has-nodata":
+        L["disp"] = F["grid_bad_nd"]
+    elif f == "grid-min-gt-max-nodata-tag-0":
+        L["disp"] = F["grid_bad_nd0"]
+    elif f == "right-grid-min-gt-max-where-the-file-has-nodata":
+        if not grid_base:
+            L["disp"] = F["grid"]
+        R["disp"] = F["rgrid_bad_nd"]
     elif f == "right-grid-without-left-grid":
         L["disp"] = [-2, 2]
         R["disp"] = F["rgrid"]
@@ -425,18 +453,18 @@ def run_case(case, ctx):
         return run_in(case, ctx, case["base"], case["faults"], rng)
     if w == "in-rand":
         rng = ctx.rng("in-rand", case["part"], case["i"])
-        base = int(rng.integers(0, 4))
+        base = int(rng.integers(0, 5))
         n = int(rng.integers(0, 3))
         faults = sorted({IN_FAULTS[int(rng.integers(0, len(IN_FAULTS)))] for _ in range(n)})
         # incompatible combinations (two edits of the same field): keep the first
         seen, keep = set(), []
         for f in faults:
-            field = f.split("-")[0] if not f.startswith(("disp", "grid")) else "disp"
+            field = f.split("-")[0] if not f.startswith(("disp", "grid", "right-grid")) else "disp"
             if field in seen:
                 continue
             seen.add(field)
             keep.append(f)
-        if "right-grid-without-left-grid" in keep or "right-list" in keep or "right-grid-other-size" in keep:
+        if any(f in keep for f in ("right-grid-without-left-grid", "right-list", "right-grid-other-size", "right-grid-min-gt-max-where-the-file-has-nodata")):
             keep = [f for f in keep if not f.startswith(("disp", "grid"))]
         return run_in(case, ctx, base, keep, rng)
     if w == "upfront":
